@@ -39,6 +39,16 @@ def meta_equal(m1, m2, ignore_star_names=False):
     return True
 
 
+def kwo_sorted(m):
+    """Metadata with the keyword-only parameters in name order: their order carries no meaning
+    (inspect.Signature.__eq__ itself ignores it)."""
+    ko = sorted((x for x in m if x[1] == KO), key=lambda x: x[0])
+    out, it = [], iter(ko)
+    for x in m:
+        out.append(next(it) if x[1] == KO else x)
+    return out
+
+
 def show(sig):
     try:
         return str(sig)
